@@ -1,14 +1,24 @@
 let show_res f = function Ok a -> f a | Fault x -> "FAULT:" ^ fault_name x
 let b2s b = if b then "1" else "0"
-let run = function
+(* source forms: "strncpy"/"strncat" take the bytes of a C string (the terminator is appended: the block is exactly the
+   string and its NUL); "strncpyr"/"strncatr" take raw cells with nothing appended (a block that ends where the helper
+   must stop looking).  A leading "pg" only changes where the harness places the blocks (end of a page, PROT_NONE page
+   behind): the model's buffers already end where the block ends. *)
+let cstr_src src = List.map (fun c -> Some c) (zbytes_of_hex src) @ [Some Z0]
+let rec run = function
+  | "pg" :: rest when rest <> [] && List.hd rest <> "pg" && List.hd rest <> "condense" -> run rest
   | ["strncpy"; size; src; dest] ->
-    let srcb = List.map (fun c -> Some c) (zbytes_of_hex src) @ [Some Z0] in
     show_res (fun (r, d) -> b2s r ^ " " ^ hex_of_zcells d)
-      (safe_strncpy (zcells_of_hex dest) srcb (z_of_int (int_of_string size)))
+      (safe_strncpy (zcells_of_hex dest) (cstr_src src) (z_of_int (int_of_string size)))
   | ["strncat"; size; src; dest] ->
-    let srcb = List.map (fun c -> Some c) (zbytes_of_hex src) @ [Some Z0] in
     show_res (fun (r, d) -> b2s r ^ " " ^ hex_of_zcells d)
-      (safe_strncat (zcells_of_hex dest) srcb (z_of_int (int_of_string size)))
+      (safe_strncat (zcells_of_hex dest) (cstr_src src) (z_of_int (int_of_string size)))
+  | ["strncpyr"; size; src; dest] ->
+    show_res (fun (r, d) -> b2s r ^ " " ^ hex_of_zcells d)
+      (safe_strncpy (zcells_of_hex dest) (zcells_of_hex src) (z_of_int (int_of_string size)))
+  | ["strncatr"; size; src; dest] ->
+    show_res (fun (r, d) -> b2s r ^ " " ^ hex_of_zcells d)
+      (safe_strncat (zcells_of_hex dest) (zcells_of_hex src) (z_of_int (int_of_string size)))
   | ["substr"; idx; cnt; s] ->
     let sb = List.map (fun c -> Some c) (zbytes_of_hex s) @ [Some Z0] in
     show_res (function None -> "NULL" | Some r -> "S " ^ hex_of_zbytes r)
